@@ -70,6 +70,49 @@ func runC16(p *chk.Prog, r *chk.Report) {
 	c16Narrow(p, r)
 	c16Read(p, r)
 	c16Validated(p, r)
+	c16Negotiated(p, r)
+}
+
+// c16Negotiated: what the peer's OPEN negotiated is per connection. The session object survives reconnects, so every
+// successful connect must overwrite the negotiated state from the OPEN it has just read; and the BGP identifier written
+// into our OPEN is the 4-byte form of the router id.
+func c16Negotiated(p *chk.Prog, r *chk.Report) {
+	x := r.Rule("NEGOTIATED", "B path", "in (*session).connect every path to the success return assigns s.peerFBASNSupport = op.fbasn (unconditionally: the flag selects the AS_PATH encoding of every later UPDATE) and s.actualHoldTime; in sendOpen the bytes copied into msg.RouterID are routerID.To4()", 3)
+	f := need(x, p, natPkg, "session", "connect")
+	if f != nil {
+		g := f.Graph()
+		op := definedByIdx(g, f, "readOpen(C)", 0)
+		isOK := func(n ast.Node) bool {
+			rs, ok := n.(*ast.ReturnStmt)
+			return ok && len(rs.Results) == 1 && f.IsNilLit(rs.Results[0])
+		}
+		w := g.MustPass(chk.Site{}, isOK, false, f.IsAssignPat("RECV.peerFBASNSupport", "OP.fbasn", chk.H("OP", op)))
+		x.Check("connect:fbasn-from-this-open", posOf(w, f), !w.Found, "", "a connection can be established without taking the 4-byte-ASN capability from the OPEN just read: the session keeps what an earlier connection negotiated and encodes the AS_PATH in the wrong width")
+		for _, s := range g.Find(func(n ast.Node) bool {
+			as, ok := n.(*ast.AssignStmt)
+			return ok && len(as.Lhs) == 1 && f.MatchNew("RECV.peerFBASNSupport", as.Lhs[0]) != nil
+		}) {
+			as := s.Node.(*ast.AssignStmt)
+			x.Check("connect:fbasn-only-from-open", s.Pos(), f.MatchWith("OP.fbasn", as.Rhs[0], chk.H("OP", op)) != nil, "", "peerFBASNSupport is set from something other than the peer's OPEN")
+		}
+		w2 := g.MustPass(chk.Site{}, isOK, false, func(n ast.Node) bool {
+			as, ok := n.(*ast.AssignStmt)
+			return ok && len(as.Lhs) == 1 && f.MatchNew("RECV.actualHoldTime", as.Lhs[0]) != nil
+		})
+		x.Check("connect:holdtime-renegotiated", posOf(w2, f), !w2.Found, "", "a connection can be established without renegotiating the hold time")
+	}
+	so := need(x, p, natPkg, "", "sendOpen")
+	if so != nil {
+		g := so.Graph()
+		rid := isParam(so, "routerID")
+		cps := g.FindPat("copy(M.RouterID[:], SRC)")
+		ok := len(cps) == 1
+		for _, c := range cps {
+			src := c.Node.(*ast.CallExpr).Args[1]
+			ok = ok && so.MatchWith("R.To4()", so.Resolve(src), chk.H("R", rid)) != nil
+		}
+		x.Check("sendOpen:router-id-is-4-byte-form", so.Pos(), ok, "", "the BGP identifier of the OPEN is not copied from routerID.To4(): a router id held in 16-byte form yields the identifier 0.0.0.0")
+	}
 }
 
 // writesTo: node contains a write into buffer b (b.Write*, binary.Write(&b,…), a
@@ -706,7 +749,10 @@ func c16Prefix(p *chk.Prog, r *chk.Report) {
 			}
 			// exactly these two writes per prefix
 			n := 0
-			for _, s := range g.Find(func(n ast.Node) bool { _, isS := n.(*ast.ExprStmt); return isS && chk.InBody(rs, n) && writesToParam(f, isParamIdx(f, 0))(n) }) {
+			for _, s := range g.Find(func(n ast.Node) bool {
+				_, isS := n.(*ast.ExprStmt)
+				return isS && chk.InBody(rs, n) && writesToParam(f, isParamIdx(f, 0))(n)
+			}) {
 				_ = s
 				n++
 			}
@@ -761,9 +807,9 @@ func c16Prefix(p *chk.Prog, r *chk.Report) {
 func c16Narrow(p *chk.Prog, r *chk.Report) {
 	x := r.Rule("NARROW-1", "F numeric", "in the encoders (sendOpen, sendUpdate, sendWithdraw, sendKeepalive, encodePathAttrs, encodePrefixes) every non-constant conversion to a narrower integer type or from a float is one of the reviewed sites {uint16(asn) in sendOpen: deliberate truncation, overridden by AS_TRANS above 65535; byte(o) in encodePrefixes: o is a prefix length 0..128; int(holdTime.Seconds()): widening of a float that is then range-checked by IntToUInt16}; every safeconvert call's error is tested and the failing branch returns the error", 8)
 	reviewed := map[string]string{
-		"sendOpen:uint16(asn)":                 "deliberate truncation; AS_TRANS replaces it when asn > 65535",
-		"encodePrefixes:byte(o)":               "o is Mask.Size() ones, 0..128",
-		"sendOpen:int(holdTime.Seconds())":     "float seconds to int, then range-checked by safeconvert.IntToUInt16",
+		"sendOpen:uint16(asn)":             "deliberate truncation; AS_TRANS replaces it when asn > 65535",
+		"encodePrefixes:byte(o)":           "o is Mask.Size() ones, 0..128",
+		"sendOpen:int(holdTime.Seconds())": "float seconds to int, then range-checked by safeconvert.IntToUInt16",
 	}
 	for _, name := range []string{"sendOpen", "sendUpdate", "sendWithdraw", "sendKeepalive", "encodePathAttrs", "encodePrefixes"} {
 		f := need(x, p, natPkg, "", name)
